@@ -2,6 +2,8 @@
 open Model
 open Model.LlpM
 type string = Stdlib.String.t
+let max = Stdlib.max
+let min = Stdlib.min
 open Conv
 
 let ok b = if b then "ok" else "FAIL"
